@@ -41,6 +41,8 @@ class Repo:
                     src = fh.read()
                 tree = ast.parse(src, filename=path)
                 self.modules[rel] = ModuleInfo(rel, path, src, tree)
+        from . import alpha
+        self.renamed_locals = alpha.normalise(self)
 
     # ---------------------------------------------------------------- lookup
     def find(self, qualname):
@@ -95,4 +97,6 @@ def patched_repo(patches, root=None):
             continue
         info.src = info.src.replace(old, new)
         info.tree = ast.parse(info.src, filename=info.path)
+    from . import alpha
+    repo.renamed_locals = alpha.normalise(repo)
     return repo, missing
